@@ -157,7 +157,7 @@ structure TZone (α : Type) where
   start : Nat
   len : Nat
   vals : List α
-  deriving Repr
+  deriving Repr, DecidableEq
 
 /-- builder state: `maps`, `cur_zone_offset`, `cur_fragment_id`, and the values accumulated since the last `new_map` -/
 structure TSt (α : Type) where
